@@ -177,10 +177,24 @@ func (e *Engine) afterReset() *Violation {
 
 // ---------- C17: dump / load ----------
 
+// pendingDump is a dump taken earlier and loaded later: the dump must be a snapshot, unaffected by whatever
+// happened to the source world (or to worlds loaded from it) in the meantime.
+type pendingDump struct {
+	d     ecs.EntityDump
+	norm  dumpN
+	alive []ecs.Entity
+	dead  []ecs.Entity
+	step  int
+}
+
 func (e *Engine) opDump(c *cursor) *Violation {
 	w := e.S.W
 	e.St.Ops["dump"]++
+	if v := e.checkPendingDump(); v != nil {
+		return v
+	}
 	d := w.DumpEntities()
+	norm0 := normDump(d)
 	js, err := json.Marshal(d)
 	if err != nil {
 		return e.viol("dump-diff", nil, "dump does not marshal: %v", err)
@@ -189,7 +203,7 @@ func (e *Engine) opDump(c *cursor) *Violation {
 	if err := json.Unmarshal(js, &d2); err != nil {
 		return e.viol("dump-diff", nil, "dump does not unmarshal: %v", err)
 	}
-	if !reflect.DeepEqual(normDump(d), normDump(d2)) {
+	if !reflect.DeepEqual(norm0, normDump(d2)) {
 		return e.viol("dump-diff", nil, "dump changed in the JSON round trip")
 	}
 	// single handles survive JSON
@@ -203,41 +217,65 @@ func (e *Engine) opDump(c *cursor) *Violation {
 			return e.viol("dump-diff", nil, "handle %v does not survive the JSON round trip (%s)", me.H, b)
 		}
 	}
-	e.St.Faults["restart"]++
-	// receiving world: fresh with a drawn capacity increment, or one that had other content and was reset
-	capInc := []int{1, 2, 3, 7, 16, 128}[c.n(6)]
-	cfg := ecs.NewConfig().WithCapacityIncrement(capInc)
-	lw := ecs.NewWorld(cfg)
-	mode := c.n(3)
-	if mode == 1 {
-		n := 1 + c.n(20)
-		var hs []ecs.Entity
-		for i := 0; i < n; i++ {
-			hs = append(hs, lw.NewEntity())
+	for i, h := range e.M.Dead {
+		if i > 3 {
+			break
 		}
-		for i, h := range hs {
-			if i%2 == 0 {
-				lw.RemoveEntity(h)
-			}
+		b, _ := json.Marshal(h)
+		var h2 ecs.Entity
+		if err := json.Unmarshal(b, &h2); err != nil || h2 != h {
+			return e.viol("dump-diff", nil, "handle %v does not survive the JSON round trip (%s)", h, b)
 		}
-		lw.Reset()
-		e.St.Probes["load-into-reset-world"]++
 	}
-	ls := &Sys{Name: "load", W: &lw, idxOfID: map[uint8]int{}}
-	var msg string
-	func() {
-		defer func() {
-			if r := recover(); r != nil {
-				msg = fmt.Sprint(r)
+	e.St.Faults["restart"]++
+	// keep the un-marshalled dump for a delayed load
+	pd := &pendingDump{d: d, norm: norm0, step: e.step}
+	for _, me := range e.M.Alive {
+		pd.alive = append(pd.alive, me.H)
+	}
+	pd.dead = append(pd.dead, e.M.Dead...)
+	e.pending = pd
+
+	// two receiving worlds loaded from the SAME dump object: a fresh one and one that had other content and was reset
+	mkWorld := func(reset bool) (*Sys, string) {
+		capInc := []int{1, 2, 3, 7, 16, 128}[c.n(6)]
+		lw := ecs.NewWorld(ecs.NewConfig().WithCapacityIncrement(capInc))
+		if reset {
+			n := 1 + c.n(20)
+			var hs []ecs.Entity
+			for i := 0; i < n; i++ {
+				hs = append(hs, lw.NewEntity())
 			}
+			for i, h := range hs {
+				if i%2 == 0 {
+					lw.RemoveEntity(h)
+				}
+			}
+			lw.Reset()
+			e.St.Probes["load-into-reset-world"]++
+		}
+		ls := &Sys{Name: "load", W: &lw, idxOfID: map[uint8]int{}}
+		var msg string
+		func() {
+			defer func() {
+				if r := recover(); r != nil {
+					msg = fmt.Sprint(r)
+				}
+			}()
+			lw.LoadEntities(&d2)
 		}()
-		lw.LoadEntities(&d2)
-	}()
+		return ls, msg
+	}
+	l1, msg := mkWorld(false)
 	if msg != "" {
-		return e.viol("dump-diff", nil, "LoadEntities into an empty world panicked: %s", msg)
+		return e.viol("dump-diff", nil, "LoadEntities into a fresh world panicked: %s", msg)
+	}
+	l2, msg := mkWorld(true)
+	if msg != "" {
+		return e.viol("dump-diff", nil, "LoadEntities into a reset world panicked: %s", msg)
 	}
 	// refusal: the source world has (or had, since its last reset) entities
-	if e.M.Created > 0 {
+	if e.M.Created > 0 || e.locked() {
 		refused := false
 		func() {
 			defer func() {
@@ -248,6 +286,9 @@ func (e *Engine) opDump(c *cursor) *Violation {
 			w.LoadEntities(&d2)
 		}()
 		if !refused {
+			if e.locked() {
+				return e.viol("lock-not-enforced", nil, "LoadEntities was accepted on a locked world")
+			}
 			return e.viol("load-accepted", nil, "LoadEntities into a world that has or had entities was accepted")
 		}
 		if v := e.checkAll(e.S, "state-after-panic"); v != nil {
@@ -262,12 +303,61 @@ func (e *Engine) opDump(c *cursor) *Violation {
 		}
 	}
 	e.Shadows = keep
-	if v := e.checkLoadAgainst(ls, &d); v != nil {
-		return v
+	for _, ls := range []*Sys{l1, l2} {
+		if v := e.checkLoadAgainst(ls, &d); v != nil {
+			return v
+		}
 	}
 	if e.P.LoadTwin && !e.locked() {
-		e.Shadows = append(e.Shadows, &Shadow{S: ls, Kind: "load"})
+		e.Shadows = append(e.Shadows, &Shadow{S: l1, Kind: "load"}, &Shadow{S: l2, Kind: "load"})
 	}
+	return nil
+}
+
+// checkPendingDump: the dump taken earlier must still be what it was, and loading it now reproduces the alive set
+// of the moment it was taken.
+func (e *Engine) checkPendingDump() *Violation {
+	pd := e.pending
+	if pd == nil {
+		return nil
+	}
+	e.pending = nil
+	mk := func(format string, args ...interface{}) *Violation {
+		return &Violation{Class: "dump-diff", Step: e.step, World: "load", Msg: fmt.Sprintf(format, args...)}
+	}
+	if !reflect.DeepEqual(pd.norm, normDump(pd.d)) {
+		return mk("the dump taken at step %d changed while the source world was used afterwards: %+v became %+v", pd.step, pd.norm, normDump(pd.d))
+	}
+	lw := ecs.NewWorld(ecs.NewConfig().WithCapacityIncrement(1 + e.step%5))
+	var msg string
+	func() {
+		defer func() {
+			if r := recover(); r != nil {
+				msg = fmt.Sprint(r)
+			}
+		}()
+		lw.LoadEntities(&pd.d)
+	}()
+	if msg != "" {
+		return mk("delayed LoadEntities panicked: %s", msg)
+	}
+	for _, h := range pd.alive {
+		if !lw.Alive(h) {
+			return mk("delayed load: %v was alive when the dump was taken but is not alive in the loaded world", h)
+		}
+	}
+	for _, h := range pd.dead {
+		if lw.Alive(h) {
+			return mk("delayed load: %v was dead when the dump was taken but is alive in the loaded world", h)
+		}
+	}
+	if used := lw.Stats().Entities.Used; used != len(pd.alive) {
+		return mk("delayed load: %d entities, %d were alive when the dump was taken", used, len(pd.alive))
+	}
+	if !reflect.DeepEqual(pd.norm, normDump(lw.DumpEntities())) {
+		return mk("delayed load: second dump differs from the original")
+	}
+	e.St.Probes["delayed-load-checked"]++
 	return nil
 }
 
